@@ -2198,8 +2198,81 @@ def probe_options(ctx):
         ctx.fail('rotation-never-ran', "get_real_bipartite_numerical_range(method='rotation' / 'eigen') raised on every symmetric input tried", dict(op='get_real_bipartite_numerical_range', method='rotation'))
 
 
+def _arrays_of(x):
+    """all numpy arrays (torch tensors as their numpy view) inside a result"""
+    try:
+        import torch
+        if isinstance(x, torch.Tensor):
+            return [x.detach().numpy()]
+    except Exception:
+        pass
+    if isinstance(x, np.ndarray):
+        return [x]
+    if isinstance(x, (list, tuple)):
+        return [a for y in x for a in _arrays_of(y)]
+    if isinstance(x, dict):
+        return [a for y in x.values() for a in _arrays_of(y)]
+    return []
+
+
+def _buffer_reuse(ctx, name, f, A, B, same=None):
+    """hardening class "buffer reuse across calls": r1 = f(A); r2 = f(B) with B != A of the same size; r1 must be unchanged bit for bit, must
+    not share memory with r2, and f(A) again must reproduce it (also after the caller overwrote the earlier results in place)"""
+    import copy
+    key = name + ':result-overwritten-by-next-call'
+    replay = dict(op=name, history=['f(A)', 'f(B)', 'overwrite results', 'f(A)'], A=repr(A)[:400], B=repr(B)[:400])
+    try:
+        r1 = f(A); a1 = _arrays_of(r1); c1 = [a.copy() for a in a1]
+        r2 = f(B); a2 = _arrays_of(r2)
+    except Exception as e:
+        ctx.fail(key, f'{name} raised {type(e).__name__}: {e}', replay); return
+    bad = []
+    if any(not np.array_equal(a, c, equal_nan=True) for a, c in zip(a1, c1)):
+        bad.append('the first result changed when the function was called with a different input of the same size')
+    if any(np.shares_memory(a, b) for a in a1 for b in a2 if a.size and b.size):
+        bad.append('the results of two calls with different inputs share memory')
+    try:
+        for a in a1 + a2:
+            if a.flags.writeable:
+                a[...] = 7
+        a3 = _arrays_of(f(A))
+        ok = len(a3) == len(c1) and all((same or (lambda x, y: x.shape == y.shape and np.array_equal(x, y, equal_nan=True)))(x, y) for x, y in zip(a3, c1))
+        if not ok:
+            bad.append('after the caller overwrote earlier results, f(A) no longer reproduces its first answer')
+    except Exception as e:
+        bad.append(f'repeat call raised {type(e).__name__}: {e}')
+    if bad:
+        ctx.fail(key, f'{name}: ' + '; '.join(bad), replay)
+    else:
+        ctx.probe_ok(('buffer-reuse', name))
+
+
+def probe_buffer_reuse(ctx):
+    """array-returning functions of C20's scope, two different inputs of the same size (deterministic, quick tier)"""
+    import numqi
+    MS = numqi.matrix_space
+    from numqi.matrix_space import _hierarchy as H, _misc as M
+    rng = np.random.default_rng(4321)
+    close = lambda x, y: x.shape == y.shape and np.abs(np.abs(x) - np.abs(y)).max(initial=0) <= 1e-8      # eigenvectors: up to sign / ARPACK noise
+    for shape, field in [((2, 3, 3), 'real'), ((2, 2, 3), 'complex')]:
+        A = rng.normal(size=shape) + (1j * rng.normal(size=shape) if field == 'complex' else 0)
+        B = rng.normal(size=shape) + (1j * rng.normal(size=shape) if field == 'complex' else 0)
+        _buffer_reuse(ctx, f'get_matrix_orthogonal_basis[{shape},{field}]', lambda x: MS.get_matrix_orthogonal_basis(x, field), A, B, same=close)
+        fa, fb = A.reshape(shape[0], -1), B.reshape(shape[0], -1)
+        _buffer_reuse(ctx, f'reduce_vector_space[{shape}]', lambda x: M.reduce_vector_space(x), fa, fb, same=close)
+        _buffer_reuse(ctx, f'get_vector_orthogonal_basis[{shape}]', lambda x: M.get_vector_orthogonal_basis(x), fa, fb, same=close)
+    A, B = [rng.normal(size=(3, 3)) for _ in range(3)], [rng.normal(size=(3, 3)) for _ in range(3)]
+    _buffer_reuse(ctx, 'tensor2d_project_to_antisym_basis', lambda x: H.tensor2d_project_to_antisym_basis(x, [0, 1]), A, B)
+    _buffer_reuse(ctx, 'project_to_symmetric_basis', lambda x: H.project_to_symmetric_basis([y.reshape(-1) for y in x], [0, 1]), A, B)
+    _buffer_reuse(ctx, 'tensor2d_project_to_sym_antisym_basis', lambda x: H.tensor2d_project_to_sym_antisym_basis(x, 1, [0, 1, 2]), A, B)
+    _buffer_reuse(ctx, 'has_rank_hierarchical_method[return_info]', lambda x: H.has_rank_hierarchical_method(np.stack(x), 2, hierarchy_k=2, return_info=True)[1], A, B)
+    Z, W = rng.normal(size=(4, 4)) + 1j * rng.normal(size=(4, 4)), rng.normal(size=(4, 4)) + 1j * rng.normal(size=(4, 4))
+    _buffer_reuse(ctx, 'get_matrix_numerical_range', lambda x: MS.get_matrix_numerical_range(x, num_point=9), Z, W, same=lambda x, y: x.shape == y.shape and np.abs(x - y).max(initial=0) <= 1e-9)
+    _buffer_reuse(ctx, 'get_matrix_numerical_range_along_direction', lambda x: MS.get_matrix_numerical_range_along_direction(x, 0.7)[1], Z, W, same=close)
+
+
 def probe(ctx):
-    for part in (replay_corpus, probe_decomposition, probe_decomposition_graded, probe_planted, probe_numrange, probe_hardening, probe_options):
+    for part in (replay_corpus, probe_decomposition, probe_decomposition_graded, probe_planted, probe_numrange, probe_hardening, probe_options, probe_buffer_reuse):
         _guarded_part(ctx, part, tie=False)
 
 
